@@ -19,6 +19,14 @@ CHECKS = {
   technique="deterministic simulation: seeded operation histories with failing operations, stepped against a list-of-pairs reference model after every step; ddmin-shrunk explicit replay files",
   text="Seeded search over operation histories (60k quick / 2M thorough histories of up to 40 operations incl. failing calls) on all four container classes; every accessor of every live container is compared with an independent list-of-pairs model after every operation. Evidence, not proof: a clean batch covers the histories it ran.",
   note="Trusted: the list-of-pairs model in sim/listmodel.py as the reading of 'as documented'; CPython's list/dict. update(multi-dict) and slice-indexing of views are not generated (see evidence assumptions)."),
+"C11": dict(engine="E3-history", design="5 (C11), 3.3",
+  technique="deterministic simulation: seeded histories with copy operations (m.copy, copy.copy, deepcopy, pickle 0-5 = restart from serialised state) and mutations on either side afterwards, stepped against an aliasing-aware list-of-pairs model",
+  text="Seeded search over histories in which containers are copied by each of the four mechanisms and originals, copies and nested containers keep being mutated; at the copy: equality both ways, class at every level, original unchanged, sharing of nested objects as the mechanism specifies; afterwards every tracked container is compared with its own model after every operation, so forbidden aliasing shows on the other side at the next mutation. Evidence over the histories run, not proof.",
+  note="Trusted: the model's statement of which mechanisms share nested containers (shallow: share; deep/pickle: share nothing, preserve internal sharing); CPython copy/pickle."),
+"C13": dict(engine="E3-history", design="5 (C13), 3.3",
+  technique="deterministic simulation: seeded container histories with interleaved repeated dumps (four encoders + pvl.dumps defaults, seeded options, same/fresh encoder instances), argument compared with the reference model after every single encode call",
+  text="Seeded search over modules built by arbitrary operation histories (duplicate keys at every level, groups valid and invalid for PDS3) with dumps called 2-4 times in a row and again after further mutations; calls in a row must agree (same text or same exception type) and the argument must equal the model after each call, the only accepted change being a top-level PVLGroup replaced by a PVLObject of identical content at the identical position under PDS3 conversion. Evidence over the histories run, not proof.",
+  note="Trusted: the C10 list-of-pairs model; the modelling of the permitted PDS3 side effect (see evidence assumptions)."),
 }
 ENGINES = [
  {"name":"E1-token-channel","path":"sim/chan.py, sim/gen.py, sim/refparse.py","serves_properties":["C05","C06","C08","C15"],"kind_free_text":"token-channel interposer (lexer_fn seam) and stored-text damage with an independent token-kind recogniser as oracle"},
